@@ -247,6 +247,8 @@ class FlowTr:
         for k in c.keywords:
             if k.arg is None: splat.append(self.expr(k.value, env, cond))
             else: kws.append((k.arg, self.expr(k.value, env, cond)))
+        splat, extra = self.expand_splats(splat)
+        kws = kws + extra
         f = self.callee_def(where)
         if f is not None:
             names, _, vararg, _ = self.params_of(f, skip_self=isinstance(self.find(self.trees[where[0]], where[1][:1]), ast.ClassDef))
@@ -256,6 +258,32 @@ class FlowTr:
             pos = pos[n:]
         if len({k for k, _ in kws}) != len(kws): raise Untranslatable('an argument given twice')
         return pos, kws, splat
+
+    def expand_splats(self, splat):
+        """`**dict(base, a=x)` / `**{'a': x}` hand over `a=x` (and `**base`); a splat that is neither that nor a plain
+        pass-through (a parameter, a stored attribute, a merge / copy of such) is not understood"""
+        def simple(t):
+            if t[0] in ('param', 'stored'): return True
+            if t[0] == 'merge': return simple(t[1]) and simple(t[2])
+            if t[0] == 'ap' and t[1] == fn('dict'): return simple(t[2])
+            return False
+        out, kws = [], []
+        def go(t):
+            if simple(t):
+                out.append(t); return
+            args, cur = [], t
+            while cur[0] == 'ap':
+                args.append(cur[2]); cur = cur[1]
+            args.reverse()
+            if cur == fn('dict') and args:
+                pos = [a for a in args if a[0] != 'kw']
+                if len(pos) <= 1 and (not pos or args[0] is pos[0]):
+                    for b in pos: go(b)
+                    kws.extend((a[1], a[2]) for a in args if a[0] == 'kw')
+                    return
+            raise Untranslatable('keyword arguments splatted from something not understood')
+        for t in splat: go(t)
+        return out, kws
 
     def call(self, c, env, cond):
         name = ast.unparse(c.func)
@@ -279,6 +307,8 @@ class FlowTr:
         if isinstance(c.func, ast.Name):
             if c.func.id in env.vars: raise Untranslatable('call through a local name ' + c.func.id)
             if c.func.id in PURE_FUNCS or self.known_function(c.func.id):
+                if c.func.id in ('tuple', 'list') and len(args) == 1 and args[0][0] == 'merge':
+                    args = [('attr', args[0], 'keys')]          # iterating a dict iterates its keys
                 return ap(fn(c.func.id), *args)
             raise Untranslatable('call of an unknown function ' + c.func.id)
         raise Untranslatable('call ' + ast.unparse(c)[:60])
